@@ -93,7 +93,13 @@ JudgeFrameDecode(r) ==
                                                    /\ (b.ok /\ d.body /= <<>>) => r.item = b.item
                   /\ HSType(d.hdr) /= SData => r.refr = Frame(d.hdr, <<>>)
 
+(* C03: what a connection writes to the socket for a message is exactly its serialized frame *)
+JudgeWire(r) == /\ r.err = ""
+                /\ r.wire = r.frame
+                /\ DecodeFrame(r.wire).ok
+
 Judge(r) == CASE r.t = "c03d" -> JudgeData(r)
+              [] r.t = "c03w" -> JudgeWire(r)
               [] r.t = "c03c" -> JudgeCtl(r)
               [] r.t = "c04f" -> JudgeFrameDecode(r)
 
